@@ -397,6 +397,18 @@ def probes(ctx, a, hist, where):
         if b != want:
             ctx.violation({**sig, 'clause': 'alias compiles iff active', 'registry': 'aliases'},
                           f'history {hist}: {al} active={al in a["aliases"]}, compiled {b}')
+        # ... in every block body as well
+        for kind, src, pre in (('DEF', 'def 0 { %s }', b'\x29\x00\x00\x01'), ('IF', 'if { %s }', b'\x2b\x00\x01'),
+                               ('LOOP', 'loop { %s }', b'\x45\x00\x01'), ('TRY', 'try { %s }', b'\x3d\x00\x01')):
+            try:
+                b2 = P_.compile_script(src % al.lower())
+            except BaseException:
+                b2 = None
+            ctx.ran()
+            want2 = (pre + want + (b'\x00\x00' if kind == 'TRY' else b'')) if want is not None else None
+            if b2 != want2:
+                ctx.violation({**sig, 'clause': 'alias compiles iff active', 'registry': 'aliases', 'inside': kind},
+                              f'history {hist}: {al} active={al in a["aliases"]} inside {kind}: compiled {b2}')
 
 
 MAX_STATES = 3000
